@@ -104,6 +104,10 @@ def gen(rng, i, tier):
     for t in ["int", "bool", "str", ["list", "int"]]:
         if _tt(t) not in [_tt(x) for x in const_types] and rng.random() < 0.3:
             table.append([t, _values(rng, t, rng.choice([0, 1, 2]))])      # type without slot
+    for n, t in syn["prims"]:
+        if not isinstance(t, str) and t[0] == "->" and rng.random() < 0.25:
+            if _untt(t) not in [_untt(_tt(e[0])) for e in table]:
+                table.append([t, [["s", f"fun{j}"] for j in range(rng.choice([1, 2, 2, 3]))]])   # constants in head position (program side)
     if mode == "empty" and table:
         table[rng.randrange(len(table))][1] = []
     if mode == "dups" and table:
@@ -589,18 +593,19 @@ def check(case, M):
         if canon_tbl(i_cfg[2]) != canon_tbl(plain(m_cfg)[2]):
             fail("corr", "instantiated rule table differs from the model's table", first_diff(i_cfg[2], plain(m_cfg)[2]))
         else:
-            fail("corr", "instantiated rule table has another dict order than the model's table", first_diff(i_cfg[2], plain(m_cfg)[2]))
-    i_tags = [[plain(nt_w(S)), [[plain(sym_w(sym_h(P))), Fraction(p2.tags[S][P])] for P in p2.tags[S]]] for S in p2.tags]
-    mt = [[plain(e[0]), [[plain(r[0]), frac(r[1])] for r in e[1]]] for e in m_tags]
-    if [[a, [r[0] for r in b]] for a, b in i_tags] != [[a, [r[0] for r in b]] for a, b in mt]:
-        fail("corr", "instantiated tag table has other keys (or another order) than the model's", first_diff(i_tags, mt))
+            tags.append("structural-drift: dict order of the instantiated table differs from the model's")
+    i_tags = {json.dumps([plain(nt_w(S)), plain(sym_w(sym_h(P)))]): Fraction(p2.tags[S][P]) for S in p2.tags for P in p2.tags[S]}
+    mt = {json.dumps([plain(e[0]), plain(r[0])]): frac(r[1]) for e in m_tags for r in e[1]}
+    if set(i_tags) != set(mt) or sorted(json.dumps(plain(nt_w(S))) for S in p2.tags) != sorted(json.dumps(plain(e[0])) for e in m_tags):
+        fail("corr", "instantiated tag table has other keys than the model's", sorted(set(i_tags) ^ set(mt))[:2])
     else:
-        for (a, b), (_, mb) in zip(i_tags, mt):
-            for (s, w), (_, mw) in zip(b, mb):
-                exact = case["weights"] != "uniform" and w == mw
-                if not exact and abs(w - mw) > TOL:
-                    fail("corr", "instantiated probability differs from the model's", f"{a} {s}: {float(w)} vs {float(mw)}")
-                    break
+        for k_, w in i_tags.items():
+            mw = mt[k_]
+            if abs(w - mw) > TOL:
+                fail("corr", "instantiated probability differs from the model's", f"{k_}: {float(w)} vs {float(mw)}")
+                break
+        if case["weights"] == "dyadic" and all(len(v) in (1, 2, 4) for v in table.values()) and i_tags != mt:
+            fail("corr", "instantiated probability differs from the model's (exact dyadic arithmetic)", "")
     # ---- the property: row sums (normalisation) — oracle on the implementation's tags
     for S in pg.tags:
         s0 = sum(Fraction(x) for x in pg.tags[S].values())
@@ -666,6 +671,31 @@ def check(case, M):
             fail("corr", "probability differs from the model's", f"{show(x)}: impl={float(px)} model={float(frac(m_pr))}")
             break
     # ---- program side
+    def prog_side(t, mlist):
+        """impl listing vs model listing (order) and vs the oracle (exactly once); True when something failed"""
+        want = insts(table, t)
+        has_missing = any(s[1] not in table for s in _const_heads(t))
+        has_assigned = any(s[2] != "" and s[1] in table for s in _const_heads(t))
+        dup = any(s[1] in table and len(set(table[s[1]])) != len(table[s[1]]) for s in _const_heads(t))
+        fid = "C17-F4" if has_missing else "C17-F2" if has_assigned else "C17-F3" if dup else None
+        try:
+            got = [prog_h(x) for x in R(t).all_constants_instantiation(tbl_repo)]
+        except Exception as e:  # noqa
+            got = type(e).__name__
+        bad = False
+        if isinstance(got, str):
+            fail("oracle", "all_constants_instantiation raises", f"{show(t)}: {got}", fid=fid)
+            bad = True
+        elif sorted(key(x) for x in got) != sorted(key(x) for x in want):
+            fail("oracle", "all_constants_instantiation does not list the instantiations exactly once", f"{show(t)}: {len(got)} listed, {len(want)} instantiations; e.g. {[show(x) for x in got[:3]]}", fid=fid)
+            bad = True
+        if got != mlist:
+            if isinstance(got, str) or isinstance(mlist, str) or sorted(key(x) for x in got) != sorted(key(x) for x in mlist):
+                fail("corr", "all_constants_instantiation differs from the model's listing", f"{show(t)}: {str(got)[:200]} vs {str(mlist)[:200]}")
+                bad = True
+            elif "structural-drift: order of all_constants_instantiation differs from the model's (itertools.product order)" not in tags:
+                tags.append("structural-drift: order of all_constants_instantiation differs from the model's (itertools.product order)")
+        return bad
     psample = tsample[:25]
     miss = any(s[1] not in table for t in psample for s in _slots(t))
     for t, mt_ in zip(tsample, m_templ):
@@ -680,28 +710,33 @@ def check(case, M):
                 raise RuntimeError(f"model mass of the instantiations differs from the template's probability although the hypotheses hold (contradicts C17_mass_partial): {show(t)}")
         if t not in psample:
             continue
-        want = insts(table, t)
-        has_missing = any(s[1] not in table for s in _const_heads(t))
-        has_assigned = any(s[2] != "" for s in _const_heads(t))
-        try:
-            got = [prog_h(x) for x in R(t).all_constants_instantiation(tbl_repo)]
-        except KeyError:
-            got = "KeyError"
-        except Exception as e:  # noqa
-            got = type(e).__name__
         mlist = "KeyError" if m_list[0] == "none" else [wire_term(w) for w in m_list[1:]]
-        if got != mlist:
-            fail("corr", "all_constants_instantiation differs from the model's listing (itertools.product order)", f"{show(t)}: {str(got)[:200]} vs {str(mlist)[:200]}")
-            break
-        fid = "C17-F4" if has_missing else "C17-F2" if has_assigned else "C17-F3" if f3 else None
-        if got == "KeyError" or isinstance(got, str):
-            fail("oracle", "all_constants_instantiation raises", f"{show(t)}: {got}", fid=fid)
-            break
-        if sorted(key(x) for x in got) != sorted(key(x) for x in want):
-            fail("oracle", "all_constants_instantiation does not list the instantiations exactly once", f"{show(t)}: {len(got)} listed, {len(want)} instantiations", fid=fid)
+        if prog_side(t, mlist):
             break
         if m_ok == "1" and m_allinst != "1":
             raise RuntimeError("model listing contains a non-instantiation (contradicts C17_program_side)")
+    # ---- program side, constants in head position (never produced by the grammars: built by hand)
+    def heads_to_slots(t):
+        h, args = t
+        nargs = [heads_to_slots(a) for a in args]
+        if args and h[0] == "P" and h[2] in table and rng.random() < 0.6:
+            return (("C", h[2], ""), nargs)
+        return (h, nargs)
+    extra = []
+    for t in psample:
+        t2 = heads_to_slots(t)
+        if t2 != t and len(insts(table, t2)) <= 400:
+            extra.append(t2)
+    for t in extra[:10]:
+        want = insts(table, t)
+        m_ok, m_list, m_bits = M.ask([Sym("c17.prog"), tbl_w(table_l), term_w(t), [term_w(x) for x in want[:50]]])
+        mlist = "KeyError" if m_list[0] == "none" else [wire_term(w) for w in m_list[1:]]
+        if any(b != "1" for b in m_bits):
+            raise RuntimeError(f"Lean isInst rejects an instantiation computed by the oracle: {show(t)}")
+        if prog_side(t, mlist):
+            break
+    if extra:
+        tags.append("program-with-constant-in-head-position")
     # ---- plain tagged grammar: the tag is copied
     try:
         tg = TaggedDetGrammar(cfg, {S: {P: sym_h(P) for P in cfg.rules[S]} for S in cfg.rules})
@@ -827,17 +862,17 @@ def check_u(case, M, cfg, tbl_repo, table, table_l, templates, expected, sample,
         fail("oracle", "instantiated unambiguous grammar cannot be expanded", type(e).__name__, lang=True)
     ans = M.ask([Sym("c17.u"), utable_w(u.rules), utags_w(utags), tbl_w(table_l)])
     hyps, m_tab, m_tags, s0, s1 = ans
-    if plain(utable_w(u2.rules)) != plain(m_tab):
+    if canon_tbl(plain(utable_w(u2.rules))) != canon_tbl(plain(m_tab)):
         fail("corr", "instantiated unambiguous rule table differs from the model's", first_diff(plain(utable_w(u2.rules)), plain(m_tab)))
-    it = [[plain(arg_w(S)), [[plain(sym_w(sym_h(P))), [[plain([arg_w(a) for a in alt]), Fraction(w)] for alt, w in pu2.tags[S][P].items()]] for P in pu2.tags[S]]] for S in pu2.tags]
-    mt = [[plain(e[0]), [[plain(r[0]), [[plain(a[0]), frac(a[1])] for a in r[1]]] for r in e[1]]] for e in m_tags]
-    strip = lambda tb: [[a, [[r[0], [x[0] for x in r[1]]] for r in b]] for a, b in tb]  # noqa
-    if strip(it) != strip(mt):
-        fail("corr", "instantiated unambiguous tag table has other keys than the model's", first_diff(strip(it), strip(mt)))
+    it = {json.dumps([plain(arg_w(S)), plain(sym_w(sym_h(P))), plain([arg_w(a) for a in alt])]): Fraction(w)
+          for S in pu2.tags for P in pu2.tags[S] for alt, w in pu2.tags[S][P].items()}
+    mt = {json.dumps([plain(e[0]), plain(r[0]), plain(a[0])]): frac(a[1]) for e in m_tags for r in e[1] for a in r[1]}
+    if set(it) != set(mt):
+        fail("corr", "instantiated unambiguous tag table has other keys than the model's", sorted(set(it) ^ set(mt))[:2])
     else:
-        bad = [(a, r[0]) for (a, b), (_, mb) in zip(it, mt) for r, mr in zip(b, mb) for x, mx in zip(r[1], mr[1]) if abs(x[1] - mx[1]) > TOL]
+        bad = [k_ for k_ in it if abs(it[k_] - mt[k_]) > TOL]
         if bad:
-            fail("corr", "instantiated unambiguous probability differs from the model's", str(bad[0]))
+            fail("corr", "instantiated unambiguous probability differs from the model's", f"{bad[0]}: {float(it[bad[0]])} vs {float(mt[bad[0]])}")
     if all(h == "1" for h in hyps) and [frac(x) for x in s0] != [frac(x) for x in s1]:
         raise RuntimeError("model row sums of the unambiguous tags change although all hypotheses hold")
     for S in pu.tags:
